@@ -280,6 +280,9 @@ func c11I(i int64) c11Arg { return c11Arg{I: &i} }
 func (a c11Arg) goValue() interface{} {
 	switch {
 	case a.I != nil:
+		if *a.I%2 != 0 && *a.I > -1<<31 && *a.I < 1<<31 {
+			return int(*a.I) // plain int and int64 both occur
+		}
 		return *a.I
 	case a.SB64 != nil:
 		b, _ := base64.StdEncoding.DecodeString(*a.SB64)
@@ -1074,13 +1077,13 @@ func c11Search(r *c11Run, bound string, seed int64, boundText *string) {
 
 	nF, nD, seqLen := 50000, 2500, 3
 	if thorough {
-		nF, nD, seqLen = 400000, 12000, 4
+		nF, nD, seqLen = 1500000, 80000, 5
 	}
 	*boundText = fmt.Sprintf("bound=%s seed=%d: level F (ReplacePlaceholders): every tree of <=2 leaves over 7 leaf kinds x value lists of length 0..4 over 3 strings, %d seeded random trees (depth<=4, placeholders 1..6 with repeats/gaps, "+
 		"19 nasty strings) with too few/exact/too many values, incl. no-sharing check; level D (database/sql, 150-row index, columns a,b,c): direct and prepared path, 24 query shapes x every argument list of length 0..%d over {\"1\",\"2\",'x\"y',42} "+
 		"as one execution sequence per statement; every sequence of <=%d executions over 5 argument lists for 3 statements; %d seeded random queries (depth<=3, group-by none/c/a,b) each with a random sequence of 1..6 executions "+
 		"(too few/exact/too many; strings with quotes/newlines/non-ASCII/NUL, int64) on the direct, prepared and raw driver.Stmt path with statement-tree snapshots. skipfew=%v",
-		bound, seed, nF, map[bool]int{false: 3, true: 4}[thorough], seqLen, nD, r.skipFew)
+		bound, seed, nF, map[bool]int{false: 3, true: 5}[thorough], seqLen, nD, r.skipFew)
 
 	// ---- the likely failures first: too few arguments on both paths, repeated execution
 	first := []struct {
@@ -1160,7 +1163,7 @@ func c11Search(r *c11Run, bound string, seed int64, boundText *string) {
 	}
 	listLen := 3
 	if thorough {
-		listLen = 4
+		listLen = 5
 	}
 	lists := c11ArgLists(small, listLen)
 	for i, sh := range shapes {
